@@ -223,6 +223,17 @@ theorem lock_step_sim (cap : Nat) (idx : Key → Nat) (s : ShLockSt) (l : LockSt
       cases D with
       | true => exact ⟨⟨rel_grant r t keys w, rfl⟩, rfl⟩
       | false => exact ⟨⟨r, rfl⟩, rfl⟩
+  | acqDone t keys w =>
+    simp only [shLockStep, lockStep, ShLockSt.acquireDone, LockSt.acquireDone, hw, rel_held r, rel_all_free cap r]
+    generalize (l.waiter.isSome || keys.isEmpty || (w && !distinct keys) ||
+      l.holds.any fun h => decide (h.thread = t) && keys.contains h.key) = C
+    cases C with
+    | true => exact ⟨⟨r, hw⟩, rfl⟩
+    | false =>
+      generalize (keys.all fun k => freeC cap l.holds k w) = D
+      cases D with
+      | true => exact ⟨⟨rel_grant r t keys w, rfl⟩, rfl⟩
+      | false => exact ⟨⟨r, hw⟩, rfl⟩
   | rel t keys w =>
     simp only [shLockStep, lockStep, ShLockSt.release, LockSt.release, hw, rel_counts r]
     generalize (keys.isEmpty || (w && !distinct keys) || (l.waiter.any fun w => decide (w.thread = t)) ||
